@@ -247,9 +247,9 @@ def class_source(rec):
             args.extend(extra)
         return "@spec_class(" + ", ".join(args) + ")" if args else "@spec_class"
 
-    def body(alist, with_hooks=True):
+    def body(alist, with_hooks=True, attrs_part=True, preparers_part=True):
         out = []
-        for a in alist:
+        for a in (alist if attrs_part else []):
             K = KINDS[a["kind"]]
             n = attr_name(a)
             src = default_source(a["kind"], a.get("default", "none"))
@@ -263,7 +263,7 @@ def class_source(rec):
                 raw = K.get("mut", K.get("lit", "MISSING")) if a.get("default", "none") != "none" else "MISSING"
                 src = f" = Attr(default={raw}, invalidated_by={list(inv)!r})"
             out.append(f"    {n}: {K['ann']}{src}")
-        for a in alist:
+        for a in (alist if preparers_part else []):
             K = KINDS[a["kind"]]
             n = attr_name(a)
             if a.get("lookup"):
@@ -311,6 +311,14 @@ def class_source(rec):
         lines += [deco(), f"class {name}Base:"] + body(attrs)
         a0 = attrs[0]
         lines += ["", f"class {name}({name}Base):", f"    {attr_name(a0)} = {REDEFAULT_SRC[a0['kind']]}"]
+    elif inherit in ("spec_sub_reprepare", "spec_sub_reprepare_redefault"):
+        # the preparers live in the SUBCLASS only (the parent prepares nothing); with _redefault the subclass also
+        # re-declares the first attribute's default.  Assignment and every helper must use the subclass' preparers.
+        lines += [deco(), f"class {name}Base:"] + body(attrs, with_hooks=False, preparers_part=False)
+        lines += ["", deco(), f"class {name}({name}Base):"]
+        if inherit.endswith("redefault"):
+            lines.append(f"    {attr_name(attrs[0])} = {REDEFAULT_SRC[attrs[0]['kind']]}")
+        lines += body(attrs, with_hooks=True, attrs_part=False)
     elif inherit == "plain_sub_baddefault":
         # a plain subclass overriding the default with a value of the wrong type
         lines += [deco(), f"class {name}Base:"] + body(attrs)
@@ -618,6 +626,17 @@ def failing_invalidation_records():
 
 def validated_item_records():
     return [single("evens", "mut"), composite("CompEvens", [("int", "lit"), ("evens", "mut")])]
+
+
+def reprepare_records():
+    """preparers defined by a spec subclass for attributes it inherits"""
+    return [
+        single("int", "lit", preparers=["v"], inherit="spec_sub_reprepare_redefault"),
+        single("nums", "mut", preparers=["nums"], inherit="spec_sub_reprepare_redefault"),
+        single("nums", "mut", item_preparers=["nums"], inherit="spec_sub_reprepare_redefault"),
+        single("int", "lit", preparers=["v"], inherit="spec_sub_reprepare"),
+        single("nums", "mut", item_preparers=["nums"], inherit="spec_sub_reprepare"),
+    ]
 
 
 def twin_records():
